@@ -137,6 +137,7 @@ def main():
     tmo = int(os.environ.get('VERIF_QUERY_TIMEOUT_MS', '20000' if tier == 'quick' else '120000'))
     for j in jobs:
         j['opts'].setdefault('timeout_ms', tmo)
+        j['opts'].setdefault('job_timeout_s', 600 if tier == 'quick' else 3000)
     gen = runner.run_jobs(ssa, jobs, args.nproc)
 
     known = [k for k in load_known() if k['property'] == args.prop]
@@ -233,7 +234,8 @@ def main():
                 elif v == 'sat-candidate':
                     os.remove(path)
                 else:
-                    os.remove(path)
+                    if not args.keep:
+                        os.remove(path)
                     inconclusive.append((jid, x['label'], 'solver model did not reproduce natively (%s): encoding mismatch or tolerance' % v))
             else:
                 inconclusive.append((jid, x['label'], v))
